@@ -120,17 +120,17 @@ Definition f14_leaf : tree nat := Node 100%N [] true false 0 [].
 Definition f14_tree : tree nat := Node 0%N [] false false 0 [Node 1%N [] false false 0 [Node 1%N [] false false 0
                                   [Node 1%N [] false false 0 [f14_leaf]]]].
 Theorem T10_xpath_refuted :
-  exists (p : spath) (t : tree nat), sel_eval nat [p] t <> matcher_selects nat false (compile_path p) t.
+  exists (p : spath) (t : tree nat), sel_eval nat [p] t <> matcher_selects nat false false (compile_path p) t.
 Proof. exists f14_path, f14_tree. vm_compute. discriminate. Qed.
 Print Assumptions T10_xpath_refuted.
 
 (** the same witness is handled by the repaired (set-of-positions) matcher: the defect switch of F14 *)
-Example f14_fixed : matcher_selects nat true (compile_path f14_path) f14_tree = sel_eval nat [f14_path] f14_tree.
+Example f14_fixed : matcher_selects nat true false (compile_path f14_path) f14_tree = sel_eval nat [f14_path] f14_tree.
 Proof. vm_compute. reflexivity. Qed.
 
 (** F26: the step after ".//" is tested against the context element itself *)
 Theorem T10_xpath_context_refuted :
-  exists (p : spath) (t : tree nat), sel_eval nat [p] t = [] /\ matcher_selects nat false (compile_path p) t = [[]].
+  exists (p : spath) (t : tree nat), sel_eval nat [p] t = [] /\ matcher_selects nat false false (compile_path p) t = [[]].
 Proof. exists (mkSpath true [NTName 0] None), (Node 0%N [] false false 0 [Node 1%N [] false false 0 []]). vm_compute. auto. Qed.
 Print Assumptions T10_xpath_context_refuted.
 
@@ -138,7 +138,7 @@ Print Assumptions T10_xpath_context_refuted.
     as written (startElement/endElement driven over the tree, SelectorMatcher's value-scope trigger) selects exactly
     the specification's node set, in the same order *)
 Theorem T10_xpath_child_only : forall (V : Type) (steps : list ntest) (t : tree V),
-  matcher_selects V false (compile_path (mkSpath false steps None)) t = sel_path V (mkSpath false steps None) t.
+  matcher_selects V false false (compile_path (mkSpath false steps None)) t = sel_path V (mkSpath false steps None) t.
 Proof. exact matcher_child_only_exact. Qed.
 Print Assumptions T10_xpath_child_only.
 Example child_only_nontrivial :
@@ -152,7 +152,7 @@ Proof. vm_compute. reflexivity. Qed.
     path  .//s1/.../sn  (n >= 1).  (For paths without ".//" the faithful matcher is already exact, T10_xpath_child_only;
     the fixed matcher on those paths is covered by T10_fixed_matcher_bounded only.) *)
 Theorem T10_fixed_matcher : forall (V : Type) (s1 : ntest) (r0 : list ntest) (t : tree V) (x : addr),
-  In x (matcher_selects V true (compile_path (mkSpath true (s1 :: r0) None)) t) <->
+  In x (matcher_selects V true false (compile_path (mkSpath true (s1 :: r0) None)) t) <->
   In x (sel_path V (mkSpath true (s1 :: r0) None) t).
 Proof. exact fixed_matcher_desc. Qed.
 Print Assumptions T10_fixed_matcher.
@@ -163,14 +163,14 @@ Print Assumptions T10_fixed_matcher.
     (F14: it can miss nodes) this pins the matcher's behaviour on ".//" paths: a subset, not always the whole set. *)
 Theorem T10_xpath_sound : forall (V : Type) (s1 : ntest) (r0 : list ntest) (t : tree V) (x : addr),
   ntest_ok s1 (t_name t) = false ->
-  In x (matcher_selects V false (compile_path (mkSpath true (s1 :: r0) None)) t) ->
+  In x (matcher_selects V false false (compile_path (mkSpath true (s1 :: r0) None)) t) ->
   In x (sel_path V (mkSpath true (s1 :: r0) None) t).
 Proof. exact matcher_sound_desc. Qed.
 Print Assumptions T10_xpath_sound.
 Example sound_nontrivial :
   let t := Node 0%N [] false false 0 [Node 1%N [] false false 0 [Node 100%N [] true false 0 []; Node 1%N [] false false 0 [Node 100%N [] true false 0 []]]] in
   ntest_ok (NTName 1) (t_name t) = false /\
-  matcher_selects nat false (compile_path (mkSpath true [NTName 1; NTName 100] None)) t = [[0; 0]] /\
+  matcher_selects nat false false (compile_path (mkSpath true [NTName 1; NTName 100] None)) t = [[0; 0]] /\
   sel_path nat (mkSpath true [NTName 1; NTName 100] None) t = [[0; 0]; [0; 1; 0]].     (* sound, a strict subset here *)
 Proof. vm_compute. auto. Qed.
 
@@ -225,5 +225,5 @@ Example gate_off_reports_nothing :
   let dup := Node 0%N [] false false (value_of [] TNone []) [Node 1%N [(0%N, value_of [] TStr [97%N])] false false (value_of [] TNone []) [];
                                                               Node 1%N [(0%N, value_of [] TStr [97%N])] false false (value_of [] TNone []) []] in
   let sch := [(0%N, mkIC KKey 0 9999 [mkSpath false [NTName 1] None] [[mkSpath false [] (Some (NTName 0))]])] in
-  model_doc false false sch dup = [] /\ model_doc false true sch dup = [E_DuplicateKey] /\ spec_doc sch dup = [V_DupKey].
+  model_doc false false false sch dup = [] /\ model_doc false false true sch dup = [E_DuplicateKey] /\ spec_doc sch dup = [V_DupKey].
 Proof. vm_compute. auto. Qed.
